@@ -8,17 +8,24 @@ import shapely
 
 from harness import util
 from harness.gen import c02_extra as X
+from harness.gen import c02_extra6 as X6
 from harness.gen import datasets as G
 from harness.gen import geomspec as S
 
 ID = 'C02'
 MODULE = 'EmsModel.Props.C02'
 DRIVER = 'C02'
+# theorems about what harness/trans_holessrc.py reads from the source of utils.make_polygons_with_holes
+EXTRA_MODULES = ['EmsModel.Props.C02Src']
 REQUIRED = [
+    'Ems.C02.holes_generated', 'Ems.C02.holes_generated_length',
     'Ems.C02.ravel_eq_select', 'Ems.C02.cf1d_polygon_at_linear', 'Ems.C02.arakawa_polygon_at_linear',
     'Ems.C02.hole_no_shift', 'Ems.C02.cf1d_centre_at', 'Ems.C02.grid_centre_at',
     'Ems.C02.polygons_length_cf1d', 'Ems.C02.polygons_length_arakawa', 'Ems.C02.polygons_length_ugrid',
 ]
+# sixth round: results held across later requests (lean/EmsModel/Props/C02Held.lean)
+EXTRA_MODULES = list(globals().get('EXTRA_MODULES', [])) + ['EmsModel.Props.C02Held']
+REQUIRED += ['Ems.C02.held_selection_at', 'Ems.C02.held_selection_own_request', 'Ems.C02.held_selection_perm']
 RULE = ('datasets of every convention on sheared, non-symmetric integer lattices (so a j/i transposition changes '
         'every polygon), with and without holes, with tagged variables (incl. missing values) on every grid kind, '
         '0-2 extra dimensions, every dimension order. UGRID face-node tables walk every layout: face_dimension attribute '
@@ -34,7 +41,18 @@ RULE = ('datasets of every convention on sheared, non-symmetric integer lattices
         'every grid has exactly as many positions as the dataset has cells/nodes/edges; ravel(v)[.., n] == select_index(wind_index(n))[v] '
         '(neither may raise); as many polygons as cells; polygon n is built from cell n own coordinates; '
         'face centre n belongs to cell n; STRtree hits of an interior point of cell n are the ground-truth cells containing it. '
-        'Non-trivial: dataset with a hole or non-square shape or >=1 extra dimension; distinct by (recipe, variable, n).')
+        'Non-trivial: dataset with a hole or non-square shape or >=1 extra dimension; distinct by (recipe, variable, n). '
+        # --- sixth round (gen/c02_extra6.py) ---
+        'HELD RESULTS: on every convention object, selectors and point datasets of 3-7 positions (grid kinds mixed, a position may '
+        'come twice) are asked for first - through selector_for_index, selector_for_indexes or select_index - and only used once all '
+        'have been made, in another order: what was handed out for position n must still select / hold the tags of cell n '
+        '(judged against the generator tags; the late selections also go through the model as isel lines). '
+        'LARGE GRIDS: every run builds two grids of 7*10^4 .. 3*10^5 cells with numpy (thorough: nine, one of 10^6) - one curvilinear '
+        '(CF 2-D / SHOC simple with stored or derived bounds, SHOC standard, in turn) with 3-8 rectangular patches of cells without '
+        'geometry scattered from the first rows to the last, one CF 1-D (uneven, possibly descending axes) or UGRID (quadrilaterals with '
+        'patches of triangles) - on integer lattices in units of 1/1024 degree; oracle only: grid sizes, EVERY polygon vertex by vertex '
+        'and every face centre against the lattice, the whole flattened variable against its tags, STRtree hits / select_index / '
+        'held selectors at ~40 cells (random, both ends, the neighbours of every patch).')
 TRUSTED = ['shapely.STRtree.query returns the positions, in the array it was built from, of the intersecting non-None entries (checked on every case)']
 ASSUMPTIONS = ['UGRID face centres without stored face coordinates are GEOS centroids: only their membership in the cell is checked']
 
@@ -75,6 +93,11 @@ def examine(ctx, recipe, items) -> None:
         for desc, view, c in made:
             examine_view(ctx, desc, view.built, c, items)
         return
+    # --- sixth round: a grid of 10^5 .. 10^6 cells, built and judged with numpy (gen/c02_extra6.py) ---
+    if recipe.get('conv') == 'big':
+        X6.examine_big(ctx, recipe)
+        return
+    # --- end ---
     built = G.build(recipe)
     examine_view(ctx, {'recipe': recipe}, built, G.bind(built), items)
 
@@ -221,6 +244,9 @@ def examine_view(ctx, desc, built, c, items) -> None:
                     ctx.oracle_fail('ravel-differs-from-select', {**desc, 'var': name, 'n': n},
                                     f'ravel({name})[..., {n}] = {a1.tolist()} but select_index(wind_index({n})) gives {a2.tolist()}')
         ctx.count(f'var:{conv}:{info.kind}')
+    # --- sixth round: results asked for first and used after later requests (gen/c02_extra6.py) ---
+    X6.held_history(ctx, desc, built, c, items, arr_str)
+    # --- end ---
 
 
 # How a UGRID file lays out its face-node table, walked systematically (not drawn): is the optional
@@ -299,6 +325,10 @@ def run(ctx) -> None:
             multi = X.random_multi(rng, ctx.tier)
             ctx.count('multi:' + '+'.join(p['conv'] for p in multi['parts']))
             ctx.guarded(lambda: examine(ctx, multi, items), {'recipe': multi})
+    # --- sixth round: large grids (gen/c02_extra6.py), judged by the oracle only ---
+    for big in X6.big_recipes(ctx):
+        ctx.guarded(lambda: examine(ctx, big, items), {'recipe': big})
+    # --- end ---
     if ctx.searching and ctx.driver is None:
         ctx.evaluated(len(items))
         return
